@@ -55,7 +55,7 @@ func lookup(v value, sel string) fval {
 	}
 	c := v.c
 	switch parts[0] {
-	case "S":
+	case "S", "K":
 		if len(parts) == 1 {
 			return fval{kind: fString, s: c.S}
 		}
@@ -402,7 +402,7 @@ type selInfo struct {
 }
 
 var selectors = []selInfo{
-	{"S", fString}, {"I", fInt}, {"F", fFloat}, {"B", fBool}, {"Tags", fList}, {"Sub", fObject}, {"Nope", fAbsent},
+	{"S", fString}, {"K", fString}, {"I", fInt}, {"F", fFloat}, {"B", fBool}, {"Tags", fList}, {"Sub", fObject}, {"Nope", fAbsent},
 	{"Sub.X", fInt}, {"Sub.Name", fString}, {"Sub.Nope", fAbsent}, {"Tags.0", fString}, {"Tags.1", fString}, {"Tags.#", fInt},
 }
 
